@@ -93,6 +93,13 @@ pub enum Op {
     Pump,
     Tick { secs: i64 },
     Restart,
+    /// (C15, executed by the model) the TA proxy opens a signer request
+    TaMake,
+    /// (C15) the signer processes the pooled request `slot` (0 = latest),
+    /// altered as `tamper` says (0 = genuine)
+    TaSign { slot: usize, tamper: u8 },
+    /// (C15) the proxy is given the pooled response `slot`
+    TaDeliver { slot: usize, tamper: u8 },
 }
 
 impl std::fmt::Display for Op {
@@ -132,7 +139,7 @@ pub struct OpOutcome {
 }
 
 impl OpOutcome {
-    fn from_res<T>(r: Result<T, krill::commons::error::Error>) -> Self {
+    pub fn from_res<T>(r: Result<T, krill::commons::error::Error>) -> Self {
         match r {
             Ok(_) => OpOutcome { ok: true, err: None, tasks: vec![], fatal: None },
             Err(e) => OpOutcome {
@@ -411,6 +418,12 @@ impl World {
                 OpOutcome { ok: true, err: None, tasks: vec![], fatal: None }
             }
             Op::Restart => OpOutcome::from_res(self.restart()),
+            Op::TaMake | Op::TaSign { .. } | Op::TaDeliver { .. } => OpOutcome {
+                ok: false,
+                err: Some("operation is executed by the C15 model".into()),
+                tasks: vec![],
+                fatal: None,
+            },
         }
     }
 
